@@ -30,7 +30,7 @@ FUNCTIONS_ENCODED = [
 ]
 BOUNDS = {
     "quick": {"overload_sets": "2 or 3 overloads, each with 1 or 2 parameters (positional-or-keyword or keyword-only), annotations atom / union of two atoms; overlapping and shadowed sets included",
-              "arguments": "atoms, one union of two atoms, or Any; passed positionally or by keyword", "relation": "every preorder on 3 atoms (6 symbolic booleans)"},
+              "arguments": "atoms, one union of two atoms (three atoms against three or more overloads), or Any; passed positionally or by keyword", "relation": "every preorder on 3 atoms (6 symbolic booleans)"},
     "thorough": {"overload_sets": "2 to 4 overloads", "arguments": "same", "relation": "same"},
 }
 OUTSIDE = ["how arg_spec builds OverloadedSignature from @overload definitions / typeshed", "type variables in overloads (C15)", "the text of the error detail"]
@@ -45,7 +45,7 @@ ANN = ["a0", "a1", "a2", "u01", "u12"]
 def _ann(name, atoms):
     if name[0] == "a":
         return atoms[int(name[1])]
-    return MultiValuedValue([atoms[int(name[1])], atoms[int(name[2])]])
+    return MultiValuedValue([atoms[int(c)] for c in name[1:]])
 
 
 def _mk_sig(spec, atoms, ret):
@@ -69,7 +69,7 @@ def _members(name):
     """atoms a union argument decomposes into"""
     if name[0] == "a":
         return [name]
-    return ["a" + name[1], "a" + name[2]]
+    return ["a" + c for c in name[1:]]
 
 
 def _ref_sig_accepts(rel, atoms, spec, call) -> bool:
@@ -222,10 +222,13 @@ def cases(tier: str, seed: int) -> List[Case]:
     # sets of 1-parameter overloads, positional and keyword calls
     for k in (2, 3) if quick else (2, 3, 4):
         for combo in itertools.product(one, repeat=k):
-            for arg in args1:
+            # a three-member union needs successive decompositions by different overloads
+            for arg in args1 + (["u012"] if k >= 3 else []):
                 for style in ("pos", "kw"):
                     idx += 1
-                    if k == 3 and (idx + seed) % (6 if quick else 2) != 0:
+                    if k == 3 and arg != "u012" and (idx + seed) % (6 if quick else 2) != 0:
+                        continue
+                    if k == 3 and arg == "u012" and quick and (idx + seed) % 2 != 0 and not all(s[0][1][0] == "a" for s in combo):
                         continue
                     if k == 4 and (idx + seed) % 40 != 0:
                         continue
